@@ -122,7 +122,10 @@ func (csm *conditionalStorageMiddleware) ListBuckets(ctx context.Context) ([]sto
 	}
 	allBuckets = append(allBuckets, buckets...)
 
-	slices.SortFunc(allBuckets, func(a storage.Bucket, b storage.Bucket) int { return strings.Compare(a.Name.String(), b.Name.String()) })
+	slices.SortStableFunc(allBuckets, func(a storage.Bucket, b storage.Bucket) int { return strings.Compare(a.Name.String(), b.Name.String()) })
+	// The same storage may back several map entries (or several storages may hold a
+	// bucket of the same name): list every bucket name once.
+	allBuckets = slices.CompactFunc(allBuckets, func(a storage.Bucket, b storage.Bucket) bool { return a.Name.String() == b.Name.String() })
 	return allBuckets, nil
 }
 
